@@ -58,6 +58,10 @@ def _default(node, pkinds) -> str:
             return "DfFalse"
         if node.value is True:
             return "DfTrue"
+    if isinstance(node, ast.Constant) and type(node.value) is int:
+        return f"DfInt ({node.value})"
+    if isinstance(node, ast.UnaryOp) and isinstance(node.op, ast.USub) and isinstance(node.operand, ast.Constant) and type(node.operand.value) is int:
+        return f"DfInt (-{node.operand.value})"
     if isinstance(node, ast.Attribute) and isinstance(node.value, ast.Name) and node.value.id == "ParameterKind" and node.attr in pkinds:
         return f"DfEnum {_coq_str(pkinds[node.attr])}"
     raise TranslatorError(f"dataclass field default outside the whitelist: {ast.unparse(node)}")
@@ -254,14 +258,14 @@ def translate(ctx=None) -> Path:
     _decoder_shape(ast.parse((src / "encoders.py").read_text()), kinds)
 
     out = ["(* GENERATED by harness/translate/c08_tables.py from /repo/src/_griffe/{expressions,enumerations,models,encoders}.py -- do not edit *)",
-           "From Coq Require Import List String.", "Import ListNotations.", "Open Scope string_scope.", "",
-           "(* default of a dataclass field: required, None, False, True, or a ParameterKind member (by value) *)",
-           "Inductive c08_default := DfRequired | DfNone | DfFalse | DfTrue | DfEnum (v : string).", "",
+           "From Coq Require Import List String ZArith.", "Import ListNotations.", "Open Scope string_scope.", "",
+           "(* default of a dataclass field: required, None, False, True, a ParameterKind member (by value), or an int *)",
+           "Inductive c08_default := DfRequired | DfNone | DfFalse | DfTrue | DfEnum (v : string) | DfInt (z : Z).", "",
            "(* expression dataclasses: fields sorted by name, `parent` included *)",
            "Definition expr_classes : list (string * list (string * c08_default)) :="]
     rows = []
     for name, fields in classes:
-        rows.append("  (" + _coq_str(name) + ", [" + "; ".join(f"({_coq_str(f)}, {d})" for f, d in fields) + "])")
+        rows.append("  (" + _coq_str(name) + ", [" + "; ".join(f"({_coq_str(f)}, {d}%Z)" if d.startswith("DfInt") else f"({_coq_str(f)}, {d})" for f, d in fields) + "])")
     out.append("  [\n" + ";\n".join(rows) + "\n  ].")
     out += ["", "Definition kind_values : list string := [" + "; ".join(_coq_str(v) for v in kinds.values()) + "].",
             "Definition parameter_kind_values : list string := [" + "; ".join(_coq_str(v) for v in pkinds.values()) + "].",
